@@ -93,3 +93,5 @@ open Tins.Wire.App
 #print axioms dhcpv6_apply_inv
 #print axioms bootp_apply_inv
 #print axioms dhcpv6_reparse_relay
+-- the generic `WritesOnly` is too strong for a trailer behind the payload: refuted on a witness (see TheoremsRtpApi)
+#print axioms rtp_writesOnly_all_fails
